@@ -533,10 +533,14 @@ class SgzReader(object):
             if not 0 < max_cd_idx <= max_cd_len:
                 raise IndexError(self.range_error.format(max_cd_idx, 1, max_cd_len))
             cd_len = max_cd_idx - min_cd_idx
+            if cd_len <= 0:
+                raise IndexError(self.range_error.format((min_cd_idx, max_cd_idx), 0, max_cd_len))
 
         if min_sample_idx is None or max_sample_idx is None:
             cd = np.zeros((cd_len, self.n_samples))
         else:
+            if not 0 <= min_sample_idx < max_sample_idx <= self.n_samples:
+                raise IndexError(self.range_error.format((min_sample_idx, max_sample_idx), 0, self.n_samples))
             cd = np.zeros((cd_len, max_sample_idx - min_sample_idx))
 
         if cd_id >= 0:
@@ -597,10 +601,14 @@ class SgzReader(object):
             if not 0 < max_ad_idx <= max_ad_len:
                 raise IndexError(self.range_error.format(max_ad_idx, 1, max_ad_len))
             ad_len = max_ad_idx - min_ad_idx
+            if ad_len <= 0:
+                raise IndexError(self.range_error.format((min_ad_idx, max_ad_idx), 0, max_ad_len))
 
         if min_sample_idx is None or max_sample_idx is None:
             ad = np.zeros((ad_len, self.n_samples))
         else:
+            if not 0 <= min_sample_idx < max_sample_idx <= self.n_samples:
+                raise IndexError(self.range_error.format((min_sample_idx, max_sample_idx), 0, self.n_samples))
             ad = np.zeros((ad_len, max_sample_idx - min_sample_idx))
 
         if ad_id < self.n_xlines:
